@@ -494,6 +494,9 @@ def x86_run_src(cells, selected):
 RUNSTUB = ('.section .text.run_probes,"ax",@progbits\n.globl run_probes\n.hidden run_probes\n'
            "run_probes:\n  ret\n" + NOTE)
 INTERP = "/lib64/ld-linux-x86-64.so.2"
+# ld.so refuses to start a process with dependencies but without malloc/calloc/free in scope, so dynamic
+# members depend on the system libc (never called: the runtime is freestanding).
+LIBC = "/lib/x86_64-linux-gnu/libc.so.6"
 DEFSYM = "--defsym=abs_defsym_2g=0x80000000"
 RT_MODE = {"static": "RT_STATIC", "static-pie": "RT_STATIC_PIE", "pie": "RT_DYN", "nonpie-dyn": "RT_DYN",
            "shared": "RT_SHARED"}
@@ -516,13 +519,13 @@ def x86_link_argv(out, output, run_obj, sodir=".", roots=None):
         argv += ["start.o"]
     argv += [f"rt_{RT_MODE[out]}.o", run_obj, "probesA.o", "probesB.o", "defs.o", "libar.a"]
     if out not in ("static", "static-pie"):
-        argv += [f"{sodir}/libdefs.so", INTERP]
+        argv += [f"{sodir}/libdefs.so", LIBC, INTERP]
     return argv
 
 
 SO_ARGV = ["-shared", "-soname=libdefs.so", "--gc-sections", "-z", "noexecstack", "-o", "libdefs.so", "so.o"]
 DRIVER_ARGV = ["-no-pie", "--dynamic-linker=" + INTERP, "-z", "noexecstack", "-o", "driver", "start.o",
-               "libtest.so", INTERP]
+               "libtest.so", LIBC, INTERP]
 
 
 def parse_run(text):
@@ -628,3 +631,184 @@ def poison_cells(elf):
         else:
             out.append((None, elf.reloc_name(t)))
     return out
+
+
+# ============================================================================================ AArch64
+# Statically evaluated (lib/imgsim.py). Same ground truth: whereis (assembler-resolved `adr`), unique
+# markers behind data/TLS symbols, callee markers, literals.
+A64_DEFS = [
+    Def("fn_local", "func", "local", bind="local", size=0x31),
+    Def("fn_global", "func", "defs", size=0x32),
+    Def("fn_hidden", "func", "defs", vis="hidden", size=0x33),
+    Def("fn_protected", "func", "defs", vis="protected", size=0x34),
+    Def("fn_weak", "func", "defs", bind="weak", size=0x35),
+    Def("data_local", "data", "local", bind="local", size=8),
+    Def("data_global", "data", "defs", size=8),
+    Def("data_hidden", "data", "defs", vis="hidden", size=8),
+    Def("data_weak", "data", "defs", bind="weak", size=8),
+    Def("tls_global", "tls", "defs", size=8),
+    Def("tls_local", "tls", "local", bind="local", size=8),
+    Def("abs_1234", "abs", "defs", value=0x1234, vclass="abs<2^16"),
+    Def("abs_4g5", "abs", "defs", value=(1 << 32) + 5, vclass="abs>=2^32"),
+    Def("undef_weak", "undefweak", "none", value=0, bind="weak"),
+    Def("so_func", "func", "so", size=0x37),
+    Def("so_data", "data", "so", size=8),
+    Def("ar_func", "func", "ar", size=0x38),
+]
+A64_DEF = {d.name: d for d in A64_DEFS}
+A64_NOTE = '.section .note.GNU-stack,"",%progbits\n'
+
+
+def _a64_marker_fn(m):
+    return (f"  movz x0,#{m & 0xffff:#x}\n  movk x0,#{(m >> 16) & 0xffff:#x},lsl #16\n"
+            f"  movk x0,#{(m >> 32) & 0xffff:#x},lsl #32\n  movk x0,#{(m >> 48) & 0xffff:#x},lsl #48\n  ret\n")
+
+
+def _a64_header(d, typ):
+    out = ""
+    if d.bind != "local":
+        out += f".{d.bind} {d.name}\n"
+    if d.vis:
+        out += f".{d.vis} {d.name}\n"
+    return out + f".type {d.name},{typ}\n.size {d.name},{d.size}\n"
+
+
+def a64_def_asm(d, tag=""):
+    n = d.name
+    if d.cls == "func":
+        return (f'.section .text.{n},"ax",%progbits\n.balign 16\n' + _a64_header(d, "%function") +
+                f"{n}:\n.L{n}_here:\n" + _a64_marker_fn(d.marker) +
+                f".globl whereis_{n}{tag}\n.hidden whereis_{n}{tag}\n.type whereis_{n}{tag},%function\n"
+                f"whereis_{n}{tag}:\n  adr x0,.L{n}_here\n  ret\n")
+    if d.cls in ("data", "tls"):
+        sec = f'.section .tdata.{n},"awT",%progbits' if d.cls == "tls" else f'.section .data.{n},"aw",%progbits'
+        return (f"{sec}\n.balign 16\n  .xword {marker(n + ':pre'):#x}\n  .xword {marker(n + ':pre2'):#x}\n" +
+                _a64_header(d, "%object") + f"{n}:\n  .xword {d.marker:#x}\n  .xword {marker(n + ':post'):#x}\n")
+    if d.cls == "abs":
+        return f".globl {n}\n.set {n},{d.value:#x}\n"
+    return ""
+
+
+def a64_obj_src(where):
+    return "".join(a64_def_asm(d) for d in A64_DEFS if d.where == where) + A64_NOTE
+
+
+# static links need a definition of __tls_get_addr even though TLS GD is relaxed; imgsim puts its own
+# implementation at this symbol's address, so an unrelaxed call still behaves like the real one.
+A64_HELPER = ('.section .text.__tls_get_addr,"ax",%progbits\n.globl __tls_get_addr\n'
+              ".type __tls_get_addr,%function\n__tls_get_addr:\n  ret\n" + A64_NOTE)
+
+AADDR = ("func", "data", "abs", "undefweak")
+ADATA = ("data",)
+
+
+def _a64_refs():
+    R = []
+    a = R.append
+    a(Ref("ABS64:data", "R_AARCH64_ABS64", "xword", "addr",
+          "  adrp x1,slot{i}\n  ldr x0,[x1,:lo12:slot{i}]\n  ret\n", AADDR, True, data="  .xword {sa}\n"))
+    a(Ref("ABS32:data", "R_AARCH64_ABS32", "word", "addr",
+          "  adrp x1,slot{i}\n  ldr w0,[x1,:lo12:slot{i}]\n  ret\n", AADDR, True, data="  .word {sa}\n"))
+    a(Ref("PREL32:word", "R_AARCH64_PREL32", "word", "addr",
+          "  adr x1,1f\n  ldrsw x0,[x1]\n  add x0,x0,x1\n  ret\n  .balign 8\n1:\n  .word {sa}-.\n", AADDR, True))
+    a(Ref("PREL64:xword", "R_AARCH64_PREL64", "xword", "addr",
+          "  adr x1,1f\n  ldr x0,[x1]\n  add x0,x0,x1\n  ret\n  .balign 8\n1:\n  .xword {sa}-.\n", AADDR, True))
+    a(Ref("ADR_PREL_LO21:adr", "R_AARCH64_ADR_PREL_LO21", "adr", "addr", "  adr x0,{sa}\n  ret\n", AADDR, True))
+    a(Ref("ADR_PREL_PG_HI21:adrp+add", "R_AARCH64_ADR_PREL_PG_HI21+ADD_ABS_LO12_NC", "adrp+add", "addr",
+          "  adrp x0,{sa}\n  add x0,x0,:lo12:{sa}\n  ret\n", AADDR, True))
+    for bits, ins, reg in ((8, "ldrb", "w0"), (16, "ldrh", "w0"), (32, "ldr", "w0"), (64, "ldr", "x0"),
+                           (128, "ldr", "q0")):
+        a(Ref(f"LDST{bits}_ABS_LO12_NC:{ins}", f"R_AARCH64_ADR_PREL_PG_HI21+LDST{bits}_ABS_LO12_NC", ins, "ea",
+              f"  adrp x1,{{s}}\n  {ins} {reg},[x1,:lo12:{{s}}]\n  ret\n", ADATA))
+    a(Ref("CALL26:bl", "R_AARCH64_CALL26", "bl", "ret", "  mov x9,x30\n  bl {s}\n  br x9\n", CALL))
+    a(Ref("JUMP26:b", "R_AARCH64_JUMP26", "b", "ret", "  b {s}\n", CALL))
+    a(Ref("CONDBR19:cbz", "R_AARCH64_CONDBR19", "cbz", "ret", "  cbz xzr,{s}\n  mov x0,xzr\n  ret\n", CALL))
+    a(Ref("CONDBR19:b.ne", "R_AARCH64_CONDBR19", "b.cond", "ret", "  b.ne {s}\n  mov x0,xzr\n  ret\n", CALL))
+    a(Ref("TSTBR14:tbz", "R_AARCH64_TSTBR14", "tbz", "ret", "  tbz wzr,#0,{s}\n  mov x0,xzr\n  ret\n", CALL))
+    a(Ref("ADR_GOT_PAGE:adrp+ldr", "R_AARCH64_ADR_GOT_PAGE+LD64_GOT_LO12_NC", "adrp+ldr", "addr",
+          "  adrp x0,:got:{s}\n  ldr x0,[x0,:got_lo12:{s}]\n  ret\n", AADDR))
+    a(Ref("MOVW_UABS:g3-chain", "R_AARCH64_MOVW_UABS_G3+G2_NC+G1_NC+G0_NC", "movz+3movk", "addr",
+          "  movz x0,#:abs_g3:{sa}\n  movk x0,#:abs_g2_nc:{sa}\n  movk x0,#:abs_g1_nc:{sa}\n"
+          "  movk x0,#:abs_g0_nc:{sa}\n  ret\n", AADDR, True))
+    a(Ref("MOVW_UABS:g2-chain", "R_AARCH64_MOVW_UABS_G2+G1_NC+G0_NC", "movz+2movk", "addr",
+          "  movz x0,#:abs_g2:{sa}\n  movk x0,#:abs_g1_nc:{sa}\n  movk x0,#:abs_g0_nc:{sa}\n  ret\n", AADDR, True))
+    a(Ref("MOVW_UABS:g1-chain", "R_AARCH64_MOVW_UABS_G1+G0_NC", "movz+movk", "addr",
+          "  movz x0,#:abs_g1:{sa}\n  movk x0,#:abs_g0_nc:{sa}\n  ret\n", AADDR, True))
+    a(Ref("MOVW_UABS:g0", "R_AARCH64_MOVW_UABS_G0", "movz", "addr", "  movz x0,#:abs_g0:{sa}\n  ret\n", AADDR, True))
+    a(Ref("TLSLE_ADD_TPREL:add", "R_AARCH64_TLSLE_ADD_TPREL_HI12+LO12_NC", "add+add", "tls",
+          "  mrs x0,tpidr_el0\n  add x0,x0,:tprel_hi12:{sa}\n  add x0,x0,:tprel_lo12_nc:{sa}\n  ret\n", TLS, True))
+    a(Ref("TLSLE_MOVW_TPREL:movz", "R_AARCH64_TLSLE_MOVW_TPREL_G1+G0_NC", "movz+movk", "tls",
+          "  movz x0,#:tprel_g1:{sa}\n  movk x0,#:tprel_g0_nc:{sa}\n  mrs x1,tpidr_el0\n  add x0,x0,x1\n  ret\n",
+          TLS, True))
+    a(Ref("TLSLE_LDST64_TPREL:ldr", "R_AARCH64_TLSLE_ADD_TPREL_HI12+LDST64_TPREL_LO12_NC", "add+ldr", "ea",
+          "  mrs x1,tpidr_el0\n  add x1,x1,:tprel_hi12:{s}\n  ldr x0,[x1,:tprel_lo12_nc:{s}]\n  ret\n", TLS))
+    a(Ref("TLSIE:adrp+ldr", "R_AARCH64_TLSIE_ADR_GOTTPREL_PAGE21+LD64_GOTTPREL_LO12_NC", "adrp+ldr", "tls",
+          "  adrp x0,:gottprel:{s}\n  ldr x0,[x0,:gottprel_lo12:{s}]\n  mrs x1,tpidr_el0\n  add x0,x0,x1\n  ret\n", TLS))
+    a(Ref("TLSDESC:call", "R_AARCH64_TLSDESC_ADR_PAGE21+LD64_LO12+ADD_LO12+CALL", "adrp+ldr+add+blr", "tls",
+          "  mov x9,x30\n  adrp x0,:tlsdesc:{s}\n  ldr x1,[x0,:tlsdesc_lo12:{s}]\n  add x0,x0,:tlsdesc_lo12:{s}\n"
+          "  .tlsdesccall {s}\n  blr x1\n  mrs x1,tpidr_el0\n  add x0,x0,x1\n  br x9\n", TLS))
+    # TLSGD (:tlsgd:) is not accepted by the available assembler (clang 14 only emits TLSDESC).
+    return R
+
+
+A64_REFS = _a64_refs()
+A64_REF = {r.id: r for r in A64_REFS}
+A64_ADDENDS = [0, 8]
+
+
+def a64_cells():
+    cells = []
+    for d in A64_DEFS:
+        for r in A64_REFS:
+            for a in A64_ADDENDS:
+                if any(applicable(d, r, o, a) for o in OUTS):
+                    cells.append((d.name, r.id, a))
+    return cells
+
+
+def a64_probe_obj_src(cells):
+    out = [a64_def_asm(d, "_A") for d in A64_DEFS if d.where == "local"]
+    out.append(".weak undef_weak\n")
+    for i, (dn, rid, a) in enumerate(cells):
+        r = A64_REF[rid]
+        fmt = dict(s=dn, sa=_sa(dn, a), i=i)
+        if r.data:
+            out.append(f'.section .data.p{i},"aw",%progbits\n.balign 8\nslot{i}:\n' + r.data.format(**fmt))
+        out.append(f'.section .text.p{i},"ax",%progbits\n.balign 4\n.globl p{i}\n.hidden p{i}\n'
+                   f".type p{i},%function\np{i}:\n" + r.body.format(**fmt))
+    out.append(A64_NOTE)
+    return "".join(out)
+
+
+def a64_roots_src(selected):
+    return ('.section .text._start,"ax",%progbits\n.globl _start\n.type _start,%function\n_start:\n' +
+            "".join(f"  bl p{i}\n" for i in selected) + "  ret\n" + A64_NOTE)
+
+
+A64_INTERP = "/lib/ld-linux-aarch64.so.1"
+
+
+def a64_link_argv(out, output, sodir, roots=None, roots_obj="roots.o"):
+    flags = {"static": ["-static"],
+             "static-pie": ["-static", "-pie", "--no-dynamic-linker"],
+             "pie": ["-pie", "--dynamic-linker=" + A64_INTERP],
+             "nonpie-dyn": ["-no-pie", "--dynamic-linker=" + A64_INTERP],
+             "shared": ["-shared", "-soname=libtest.so"]}[out]
+    argv = [*flags, "--gc-sections", "-z", "noexecstack", "-o", output]
+    if roots is not None:
+        argv += ["-e", f"p{roots[0]}"]
+        for i in roots[1:]:
+            argv += ["-u", f"p{i}"]
+    else:
+        argv += ["-e", "_start", roots_obj]
+    argv += ["probes.o", "defs.o", "libar.a"]
+    if out in ("static", "static-pie"):
+        argv += ["helper.o"]
+    else:
+        argv += [f"{sodir}/libdefs.so"]
+        if out == "shared":
+            argv += ["--allow-shlib-undefined"]
+    return argv
+
+
+A64_SO_ARGV = ["-shared", "-soname=libdefs.so", "--gc-sections", "-z", "noexecstack", "-o", "libdefs.so", "so.o"]
